@@ -260,7 +260,7 @@ func c13prop(ev *evid.Rec, forceWrap bool) func(rt *rapid.T) {
 		accounts := []hlsim.AccountSpec{acct("admin", "Admin", "adminpw", func() hlref.Access { a := hlref.AllAccess().Defined(); return a }())}
 		var accs []hlref.Access
 		for i := 0; i < nacc; i++ {
-			a := hlref.AccessOf(hlref.PrivAnyName, hlref.PrivSendPrivMsg, hlref.PrivOpenChat, hlref.PrivGetClientInfo)
+			a := hlref.AccessOf(hlref.PrivAnyName, hlref.PrivSendPrivMsg, hlref.PrivOpenChat, hlref.PrivGetClientInfo, hlref.PrivSendChat, hlref.PrivReadChat)
 			if rapid.IntRange(0, 3).Draw(rt, fmt.Sprintf("discon%d", i)) == 0 {
 				a.Set(hlref.PrivDisconUser)
 			}
@@ -299,7 +299,7 @@ func c13prop(ev *evid.Rec, forceWrap bool) func(rt *rapid.T) {
 			}
 			genName := func(label string) []byte {
 				if rapid.IntRange(0, 3).Draw(s.rt, label+"_k") == 0 {
-					return []byte(rapid.SampledFrom([]string{"n", "two words", "caf\xe9", strings.Repeat("L", 600), strings.Repeat("m", 505), "\x00zero"}).Draw(s.rt, label))
+					return []byte(rapid.SampledFrom([]string{"n", "two words", "caf\xe9", strings.Repeat("L", 600), strings.Repeat("m", 505), "\x00zero", "Al\rice", "two\nlines", "\r"}).Draw(s.rt, label))
 				}
 				return genBytes(s.rt, label, rapid.IntRange(1, 30).Draw(s.rt, label+"_len"))
 			}
@@ -488,6 +488,21 @@ func c13prop(ev *evid.Rec, forceWrap bool) func(rt *rapid.T) {
 					}
 					c.connected = false
 					nt = true
+				},
+				"say": func(rt *rapid.T) {
+					// somebody says something in the public chat (or emotes): nothing about presence, and the lists stay what they are
+					s.rt = rt
+					from := pick("from", func(c *pclient) bool { return c.connected && c.completed })
+					if from == nil {
+						rt.Skip()
+					}
+					rec("chat line by %d", from.idx)
+					fs := []hlref.Field{sfld(hlref.FData, "hello everybody")}
+					if rapid.Bool().Draw(rt, "emote") {
+						fs = append(fs, fld(hlref.FChatOptions, hlref.BE16(1)))
+					}
+					from.conn.Request(hlref.TranChatSend, fs...)
+					settle(0)
 				},
 				"privateMessage": func(rt *rapid.T) {
 					s.rt = rt
